@@ -541,11 +541,9 @@ func tkRejectReasons(w *hWorld, pre map[string]*hAccount, cs *callSpec, refund b
 // behalf of a metachain caller — is delivered without being judged)
 var c01Prov = map[*hWorld]map[int]bool{}
 
-func monC01(c *ctx, w *hWorld, pre *worldSnap, sr *stepResult, hist []string) {
-	cs := sr.Call
-	if !tkTransferFns[cs.Fn] || sr.Op.Kind == opRedeliver {
-		return
-	}
+// tkTransferClass: origin / deliver / refund / foreign-message / other for an executed transfer function; records the
+// provenance of the messages emitted by origin-side executions (idempotent: several monitors may call it)
+func tkTransferClass(w *hWorld, sr *stepResult) string {
 	class := tkOpClass(w, sr)
 	if class == "origin" && sr.Res.Status == 0 {
 		for _, m := range sr.NewMsgs {
@@ -558,6 +556,15 @@ func monC01(c *ctx, w *hWorld, pre *worldSnap, sr *stepResult, hist []string) {
 	if (class == "deliver" || class == "refund") && !c01Prov[w][sr.Op.ID] {
 		class = "foreign-message"
 	}
+	return class
+}
+
+func monC01(c *ctx, w *hWorld, pre *worldSnap, sr *stepResult, hist []string) {
+	cs := sr.Call
+	if !tkTransferFns[cs.Fn] || sr.Op.Kind == opRedeliver {
+		return
+	}
+	class := tkTransferClass(w, sr)
 	c.count("c01/" + class + "/" + cs.Fn + "/" + statusName(sr.Res.Status))
 	if sr.Res.Status != 0 {
 		if w.digest() != pre.Digest {
@@ -766,6 +773,13 @@ func c01RunScenario(c *ctx, u *universe, s c01Scen, b *tkBudget, idx int, extra 
 		r.must(r.sysOn(dsh, dst, "ESDTFreeze", []byte(tkKey(tok, nonce))), "freeze")
 	case "paused":
 		r.must(r.sysOn(dsh, u.SYS, "ESDTPause", tok), "pause")
+	case "paused-sender-shard":
+		r.must(r.sysOn(0, u.SYS, "ESDTPause", tok), "pause on the sender's shard")
+	case "paused-both-shards":
+		r.must(r.sysOn(0, u.SYS, "ESDTPause", tok), "pause on the sender's shard")
+		r.must(r.sysOn(dsh, u.SYS, "ESDTPause", tok), "pause on the destination shard")
+	case "frozen-sender":
+		r.must(r.sysOn(0, snd, "ESDTFreeze", []byte(tkKey(tok, nonce))), "freeze the sender's entry")
 	}
 	before := tkAcctBalances(w, snd)
 	// the transfer
@@ -1055,15 +1069,15 @@ func init() {
 		c.stateProj = "sp_balances" // the part of the state this property's theorems speak about
 		u := newUniverse()
 		proj := tkProj(true, true)
-		c.rep.Rule = "(1) scenario families on fresh 2-shard worlds: {fungible, SFT, NFT} x {ESDTTransfer/ESDTNFTTransfer, multi with 1, 2, 3 tokens incl. a repeated token} x {destination already holds the token / holds nothing} x {none, frozen, paused, not payable, oracle error, other NFT with the same key} x {same shard, cross shard}: transfer, delivery, and after a rejected delivery the return-after-error refund (sender's balances must be back); the same transfers (ESDTTransfer, ESDTNFTTransfer, multi fungible-only / NFT-only / mixed, partial and whole balance) with the blocking condition installed AFTER the successful sender-side execution (token paused on the destination shard or on both shards, destination frozen, sender frozen too): delivery refused, refund must succeed despite pause / freeze on the sender side and restore the sender; three in-flight messages delivered in all 6 orders; aliasing identifiers (F4b world: holder of ABC-123456 nonce 0x44 names ABC-12345 nonce 0x3644), repaired F4a shape, unknown / empty ids. " +
+		c.rep.Rule = "(1) scenario families on fresh 2-shard worlds: {fungible, SFT, NFT} x {ESDTTransfer/ESDTNFTTransfer, multi with 1, 2, 3 tokens incl. a repeated token} x {destination already holds the token / holds nothing} x {none, frozen, paused, not payable, oracle error, other NFT with the same key; cross shard also: token paused on the SENDER shard, on both shards, sender entry frozen} x {same shard, cross shard}: transfer, delivery, and after a rejected delivery the return-after-error refund (sender's balances must be back); the same transfers (ESDTTransfer, ESDTNFTTransfer, multi fungible-only / NFT-only / mixed, partial and whole balance) with the blocking condition installed AFTER the successful sender-side execution (token paused on the destination shard or on both shards, destination frozen, sender frozen too): delivery refused, refund must succeed despite pause / freeze on the sender side and restore the sender; three in-flight messages delivered in all 6 orders; aliasing identifiers (F4b world: holder of ABC-123456 nonce 0x44 names ABC-12345 nonce 0x3644), repaired F4a shape, unknown / empty ids. " +
 			"(2) random walks over 1-3 shard worlds weighted to transfers, deliveries, refunds, freeze/pause, hostile argument lists. " +
 			"After EVERY executed ESDTTransfer / ESDTNFTTransfer / MultiESDTNFTTransfer (sender side, delivery, refund) the monitor recomputes on the real storage: per storage-level key the sum over all accounts of all shards + undelivered messages is unchanged; failed call = identical world; exact debit per (token, nonce) with repeats accumulated; exact credit; no other (account, key) changes; the emitted message carries the debit; a refused delivery must have an admissible reason in the destination's pre-state. " +
 			"Every executed call is re-executed by the Coq model (projection: status, output transfers, complete post-state of the shard) and every scenario / walk as a whole history by the Coq world model. distinct = distinct (world state, operation)."
 		c.tkBegin(proj)
 		quick := !(c.thorough() || c.widen)
-		budget := &tkBudget{max: 1250}
+		budget := &tkBudget{max: 1250, every: 2}
 		if !quick {
-			budget.max = 6000
+			budget = &tkBudget{max: 6000}
 		}
 		extra := map[string]int{}
 		idx := 0
@@ -1077,6 +1091,9 @@ func init() {
 					for _, holds := range []bool{false, true} {
 						for _, cross := range []bool{true, false} {
 							bl := []string{"none", "frozen", "paused", "not-payable", "oracle-error"}
+							if cross { // blocking condition on the SENDER's side of a cross-shard transfer: the origin must fail (or conserve)
+								bl = append(bl, "paused-sender-shard", "paused-both-shards", "frozen-sender")
+							}
 							if kind > 0 && holds {
 								bl = append(bl, "wrong-hash")
 							}
